@@ -392,6 +392,8 @@ class Ref:
     def t_add_metabolites(self, op, env):
         ids = [m["id"] for m in op["mets"]]
         new = [m for m in op["mets"] if m["id"] not in self.mets]
+        if op.get("twice") and op["mets"] and op["mets"][0]["id"] not in self.mets:
+            return "raises"  # the same new metabolite listed twice: duplicate identifier
         if len({m["id"] for m in new}) != len(new):
             return "unknown"
         for m in new:
